@@ -22,6 +22,7 @@ def batch_limit(text: Any, choice: Any) -> Any:
     return choice
 
 
+CODEC_CHOICES = ['default', 'default', 'default', 'classes', 'functions']    # pbt/codecs.py
 BATCH_LIMITS = [None, None, None, 0, 1, 2, 3, 4, 6, '-1', '0', '0', '+1']
 
 
@@ -30,8 +31,8 @@ def dispatch_case(registry_kind: str = 'std'):
     def for_kind(kind: str):
         reg = stdreg.std_registry(kind)
         return st.builds(
-            lambda text, beh, mbs: {'dispatcher': kind, 'max_batch_size': batch_limit(text, mbs), 'behaviours': beh, 'text': text},
-            docs.document(reg), stdreg.behaviours(), st.sampled_from(BATCH_LIMITS),
+            lambda text, beh, mbs, codec: {'dispatcher': kind, 'max_batch_size': batch_limit(text, mbs), 'behaviours': beh, 'text': text, 'codec': codec},
+            docs.document(reg), stdreg.behaviours(), st.sampled_from(BATCH_LIMITS), st.sampled_from(CODEC_CHOICES),
         )
     return st.one_of(for_kind('sync'), for_kind('async'))
 
@@ -45,6 +46,8 @@ def doc_classes(spec: Any, exp: ref.Expectation) -> list:
         classes.append('depth>=32')
     if spec.get('max_batch_size') is not None:
         classes.append('max_batch_size/set')
+    if spec.get('codec', 'default') != 'default':
+        classes.append(f"codec/{spec['codec']}")
     for el in exp.elements:
         classes.append(el.klass)
     return classes
@@ -62,7 +65,7 @@ class C01(Check):
         "jsonrpc/id/method/params, non-object elements, duplicate ids), arbitrary JSON values, containers nested 8..62 levels, integer "
         "literals of 4300/4301/10000 digits spliced at id/params/nested/jsonrpc/method, float literals beyond the double range (1e400) at id/jsonrpc/method, mangled texts (truncation, stray bytes, single "
         "quotes, trailing commas, BOM, unbalanced brackets) and raw non-JSON strings x sync/async dispatcher x max_batch_size "
-        "{unset,0,1,2,3,4,6} x method behaviours (return any JSON value, raise protocol error, raise 12 exception types). Oracle: "
+        "{unset,0,1,2,3,4,6} x JSON codec configured on the dispatcher {library default, application encoder / decoder classes, application loader / dumper functions: floats parsed as Decimal and written as tagged strings} x method behaviours (return any JSON value, raise protocol error, raise 12 exception types). Oracle: "
         "dispatch never raises; returns None or (str, tuple); the text parses and satisfies the independent response-document validator "
         "(non-empty array, jsonrpc '2.0', id string/number/null, exactly one of result/error, integer code + string message); codes agree "
         "with the document. non-trivial = the text is not valid JSON (and not empty) or parses to an object/array; distinct = distinct spec."
@@ -70,7 +73,7 @@ class C01(Check):
     assumptions = [
         "methods return JSON-encodable values; no user middleware / error handler raises (the property's proviso)",
         "nesting <= 64 levels (python's json recursion limit is outside the quantifier)",
-        "NaN / Infinity tokens are not generated, and overflowing float literals never inside params (they would come back through the echo methods); the response text is parsed strictly (NaN / Infinity in it are a violation)",
+        "NaN / Infinity tokens are not generated; overflowing float literals are (also inside params, where an echoing method returns them: the response text is parsed with the stdlib decoder, a non-finite id is a violation, a non-finite payload is not)",
     ]
     trusted_base = ['pbt/wellformed.py', 'python json (response text parsed with the stdlib decoder)']
     required_classes = [
@@ -78,6 +81,7 @@ class C01(Check):
         'doc/batch-accepted', 'doc/batch-accepted/all-notifications', 'doc/batch-rejected/empty', 'doc/batch-rejected/invalid-element',
         'doc/batch-rejected/duplicate-ids', 'doc/batch-rejected/too-large', 'huge-literal', 'depth>=32',
         'call/raises-exception', 'call/raises-protocol-error', 'notification/raises-exception', 'dispatcher/sync', 'dispatcher/async',
+        'codec/classes', 'codec/functions',
     ]
 
     def strategy(self, tier: str):
@@ -98,6 +102,8 @@ class C01(Check):
                 {**base, 'text': t({'jsonrpc': '2.0', 'id': 1, 'method': 'echo', 'params': {'a': [docs.PLACEHOLDER]}}, huge='overflow')},
                 {**base, 'text': {'raw': '{"jsonrpc":"2.0","method":"echo","params":["\ud800"],"id":1}'}},
                 {**base, 'text': {'raw': '\udc00'}},
+                {**base, 'codec': 'classes', 'text': t([{'jsonrpc': '2.0', 'id': 1, 'method': 'echo', 'params': [1.5, {'a': [0.25]}]}, {'jsonrpc': '2.0', 'id': 1.5, 'method': 'echo'}])},
+                {**base, 'codec': 'functions', 'text': t({'jsonrpc': '2.0', 'id': 1, 'method': 'echo', 'params': {'a': 2.5}})},
                 {**base, 'text': {'raw': ''}},
                 {**base, 'text': {'raw': '[]'}},
                 {**base, 'text': t([1])},
@@ -109,7 +115,7 @@ class C01(Check):
 
     def run_case(self, spec: Any) -> Outcome:
         obs = sh.observe(spec)
-        exp = ref.expect(obs.request_text, sh.registry_of(spec), sh.behaviours_of(spec), spec.get('max_batch_size'))
+        exp = ref.expect(obs.request_text, sh.registry_of(spec), sh.behaviours_of(spec), spec.get('max_batch_size'), spec.get('codec', 'default'))
         discs = sh.totality_discs('C01', obs)
         nontrivial = exp.klass != 'doc/not-json' or bool(obs.request_text.strip())
         return Outcome(discs, nontrivial, doc_classes(spec, exp))
